@@ -50,6 +50,7 @@ fn main() {
         "C04" => vh::props::c04::C04,
         "C06" => vh::props::c06::C06,
         "C07" => vh::props::c07::C07,
+        "C12" => vh::props::c12::C12,
     );
     std::process::exit(code);
 }
